@@ -272,7 +272,7 @@ def run(tier, replay=None):
             if tier == "quick" and (size + len(pacing)) % 2 and size > 1000:
                 continue
             k += 1
-            obs = common.guarded(lambda size=size, pacing=pacing, k=k: loopback_round(common.free_port(), size, pacing, False), f"loopback: {size} bytes, receiver {pacing}", twedged, 120.0)
+            obs = common.guarded(lambda size=size, pacing=pacing, k=k: loopback_round(common.own_port(k), size, pacing, False), f"loopback: {size} bytes, receiver {pacing}", twedged, 120.0)
             if obs is None:
                 continue
             rounds.append(obs)
@@ -284,7 +284,7 @@ def run(tier, replay=None):
     # success was reported, the endpoint is disabled at once, the slow peer reads on until EOF: nothing of the accepted bytes may be missing
     for size in ([60000] if tier == "quick" else [3000, 20000, 60000, 300000]):
         k += 1
-        obs = common.guarded(lambda size=size, k=k: loopback_round(common.free_port(), size, "small_reads", False, True), f"loopback: {size} bytes, endpoint disabled right after the send", twedged, 120.0)
+        obs = common.guarded(lambda size=size, k=k: loopback_round(common.own_port(k), size, "small_reads", False, True), f"loopback: {size} bytes, endpoint disabled right after the send", twedged, 120.0)
         if obs is None:
             continue
         rounds.append(obs)
@@ -294,7 +294,7 @@ def run(tier, replay=None):
     # whole messages through the protocol's send queue, around the packet size
     for size in ([1024 * 1024 + 1] if tier == "quick" else [1024 * 1024 - 14, 1024 * 1024 - 13, 1024 * 1024 + 1, 2 * 1024 * 1024 + 5, 3 * 1024 * 1024 - 14]):
         k += 1
-        obs = common.guarded(lambda size=size, k=k: loopback_round(common.free_port(), size, "immediate", True), f"loopback: message with a body of {size} bytes through send_message", twedged, 120.0)
+        obs = common.guarded(lambda size=size, k=k: loopback_round(common.own_port(k), size, "immediate", True), f"loopback: message with a body of {size} bytes through send_message", twedged, 120.0)
         if obs is None:
             continue
         rounds.append(obs)
